@@ -1,68 +1,1377 @@
 //go:build verif
 
+// C12 harness: the Connect CA issues only authorized, verifiable identities.
+//
+// Two kinds of sessions, both over a REAL FSM / state store (consul.VerifCADelegate12 applies
+// every CA request through fsm.Apply with msgpack encoding, as Server.raftApplyMsgpack does):
+//
+//   manager sessions  a real CAManager (primary datacenter, real Consul CA provider) is
+//                     initialized, then CSRs built with x509.CreateCertificateRequest and parsed
+//                     with connect.ParseCSR (the path of the ConnectCA.Sign endpoint) are given to
+//                     the real CAManager.AuthorizeAndSignCertificate together with real
+//                     acl.Authorizers compiled from generated policies; interleaved with root
+//                     rotations (UpdateConfiguration: new key, cross-signing, rotating back to an
+//                     earlier root), config-only updates, failed conditional updates, direct
+//                     serial increments and cluster-id changes.
+//   bare sessions     CA command histories (set-config / set-roots / set-roots-config / provider
+//                     state / serial) with matching and stale indexes, colliding root ids, zero or
+//                     several active roots, straight into the FSM.
+//
+// Lines (see lean/CV/Engine/C12.lean):  new / ca / mgr / sign, one canonical answer each, which the
+// compiled Lean model (CV.Ca) must reproduce.
+//
+// Monitors (independent of the Lean model) — sign: exactly one URI and no e-mail in the request,
+// issued URI parses (real ParseCertURI) to a supported identity equal to the requested one, the real
+// authorizer grants write on exactly that scope, datacenter and trust domain are the cluster's,
+// IsCA=false, serial never seen before, the certificate verifies (crypto/x509) against the root
+// the state store marks active, SANs equal the request's.  CA tables: empty or exactly one
+// active root after every command, roots = old or requested set, applied iff index matched,
+// roots+config both or neither, serials strictly fresh.
 package main
 
 import (
 	"crypto/ecdsa"
 	"crypto/elliptic"
 	"crypto/rand"
+	"crypto/sha256"
 	"crypto/x509"
+	"crypto/x509/pkix"
+	"encoding/hex"
 	"encoding/pem"
 	"fmt"
+	"net"
 	"net/url"
+	"sort"
+	"strings"
+	"time"
 
 	"github.com/hashicorp/consul/acl"
 	"github.com/hashicorp/consul/agent/connect"
+	"github.com/hashicorp/consul/agent/connect/ca"
 	"github.com/hashicorp/consul/agent/consul"
+	"github.com/hashicorp/consul/agent/consul/state"
 	"github.com/hashicorp/consul/agent/structs"
+	"github.com/hashicorp/consul/internal/verifharness/hx"
 )
 
-func main() {
-	d := consul.VerifNewCADelegate12("dc1", 10)
-	d.OnCA = func(idx uint64, req *structs.CARequest, resp interface{}) {
-		fmt.Printf("CA %d %s -> %v\n", idx, req.Op, resp)
+const localDC = "dc1"
+
+var clusterIDs = []string{"11111111-2222-3333-4444-555555555555", "AbCdEf01-2222-3333-4444-555555555555"}
+
+var (
+	csrKeys []*ecdsa.PrivateKey
+	caKeys  []string // PEM private keys for the Consul CA provider
+)
+
+func initKeys() {
+	for i := 0; i < 3; i++ {
+		k, err := ecdsa.GenerateKey(elliptic.P256(), rand.Reader)
+		if err != nil {
+			panic(err)
+		}
+		csrKeys = append(csrKeys, k)
 	}
-	m := consul.VerifNewCAManager12(d, "dc1", &structs.CAConfiguration{ClusterID: "11111111-2222-3333-4444-555555555555", Provider: "consul",
-		Config: map[string]interface{}{"CSRMaxPerSecond": 0}})
-	if err := m.Initialize(); err != nil {
+	for i := 0; i < 4; i++ {
+		_, p, err := connect.GeneratePrivateKey()
+		if err != nil {
+			panic(err)
+		}
+		caKeys = append(caKeys, p)
+	}
+}
+
+// ---------------------------------------------------------------- session
+
+type rootRow struct {
+	id          string
+	active      bool
+	create, mod uint64
+}
+type cfgRow struct {
+	provider, cluster, tag string
+	create, mod            uint64
+}
+type provRow struct {
+	id          string
+	create, mod uint64
+}
+type caSnap struct {
+	roots     []rootRow
+	ridx      uint64
+	cfg       *cfgRow
+	provs     []provRow
+	pidx      uint64
+	ser       int64 // -1: none
+	clusterID string
+}
+
+type sess struct {
+	run     *hx.Run
+	d       *consul.VerifCADelegate12
+	m       *consul.CAManager
+	bare    bool
+	labels  map[string]string
+	nlab    map[string]int
+	inSign  bool
+	signOps []string
+	serials map[uint64]bool
+	maxSer  uint64
+	ops     []string
+	prev    caSnap
+	curKey  int
+	conf    map[string]interface{}
+	rootPEM map[int]string // CA key index -> root cert PEM generated for it
+}
+
+func newSess(run *hx.Run, bare bool, start uint64) *sess {
+	s := &sess{run: run, bare: bare, labels: map[string]string{}, nlab: map[string]int{}, serials: map[uint64]bool{}, rootPEM: map[int]string{}}
+	s.d = consul.VerifNewCADelegate12(localDC, start)
+	s.d.OnCA = s.onCA
+	s.line("new "+hx.EncS(localDC), "ok")
+	s.prev = s.snap()
+	return s
+}
+
+func (s *sess) line(op, out string) {
+	s.ops = append(s.ops, op)
+	s.run.Line(op, out)
+}
+
+var violCount = map[string]int{}
+
+// violate records at most three witnesses per signature (the recorder keeps 50 in total), the
+// rest is only counted in the histogram.
+func (s *sess) violate(sig, desc string) {
+	violCount[sig]++
+	if violCount[sig] > 3 {
+		s.run.Tag("violation-repeat:" + sig)
+		return
+	}
+	s.run.Violate(sig, desc, append([]string(nil), s.ops...))
+}
+
+// label maps run-specific values (certificate fingerprints, provider ids, config digests) to
+// stable names so that the operation lines depend on the seed only.
+func (s *sess) label(kind, v string) string {
+	if s.bare || v == "" {
+		return v
+	}
+	k := kind + ":" + v
+	if l, ok := s.labels[k]; ok {
+		return l
+	}
+	s.nlab[kind]++
+	l := fmt.Sprintf("%s%d", kind, s.nlab[kind])
+	s.labels[k] = l
+	return l
+}
+
+func (s *sess) tagOf(c map[string]interface{}) string {
+	if t, ok := c["tag"]; ok && len(c) == 1 {
+		return fmt.Sprint(t)
+	}
+	keys := make([]string, 0, len(c))
+	for k := range c {
+		keys = append(keys, k)
+	}
+	sort.Strings(keys)
+	h := sha256.New()
+	for _, k := range keys {
+		fmt.Fprintf(h, "%s=%v;", k, c[k])
+	}
+	return s.label("t", hex.EncodeToString(h.Sum(nil))[:16])
+}
+
+func (s *sess) snap() caSnap {
+	st := s.d.State()
+	sn := st.Snapshot()
+	defer sn.Close()
+	var c caSnap
+	c.ser = -1
+	roots, err := sn.CARoots()
+	if err != nil {
 		panic(err)
 	}
-	key, _ := ecdsa.GenerateKey(elliptic.P256(), rand.Reader)
-	for _, s := range []string{
-		"spiffe://11111111-2222-3333-4444-555555555555.consul/ns/default/dc/dc1/svc/web",
-		"spiffe://foreign.consul/agent/client/dc/dc1/id/node1",
-		"spiffe://foreign.consul/agent/client/dc/dc9/id/node1",
-		"spiffe://foreign.consul/agent/client/dc/dc1/id/node%41",
-		"spiffe://foreign.consul/agent/client/dc/dc1/id/node1?x=1",
-		"spiffe://foreign.consul/agent/client/dc/dc1/id/a%2Fb",
-		"spiffe://foreign.consul/ap/foo/agent/client/dc/dc1/id/node1",
-		"spiffe://11111111-2222-3333-4444-555555555555.consul/ns/default/dc/dc1/svc/we%62",
-		"spiffe://11111111-2222-3333-4444-555555555555.consul/ns/default/dc/dc1/svc/web#frag",
-	} {
-		u, err := url.Parse(s)
-		if err != nil {
-			fmt.Println("parse", s, err)
-			continue
-		}
-		tmpl := &x509.CertificateRequest{URIs: []*url.URL{u}, SignatureAlgorithm: x509.ECDSAWithSHA256}
-		der, err := x509.CreateCertificateRequest(rand.Reader, tmpl, key)
-		if err != nil {
-			fmt.Println("createcsr", s, err)
-			continue
-		}
-		csr, err := connect.ParseCSR(string(pem.EncodeToMemory(&pem.Block{Type: "CERTIFICATE REQUEST", Bytes: der})))
-		if err != nil {
-			fmt.Println("parsecsr", s, err)
-			continue
-		}
-		c, err := m.AuthorizeAndSignCertificate(csr, acl.ManageAll())
-		if err != nil {
-			fmt.Println("ERR", s, err)
-			continue
-		}
-		cert, _ := connect.ParseCert(c.CertPEM)
-		fmt.Println("OK ", s, "->", cert.URIs[0].String(), cert.SerialNumber, cert.IsCA)
-		id, err := connect.ParseCertURI(cert.URIs[0])
-		fmt.Printf("     reparsed: %#v %v\n", id, err)
+	for _, r := range roots {
+		c.roots = append(c.roots, rootRow{s.label("r", r.ID), r.Active, r.CreateIndex, r.ModifyIndex})
 	}
+	sort.Slice(c.roots, func(i, j int) bool { return c.roots[i].id < c.roots[j].id })
+	cfg, err := sn.CAConfig()
+	if err != nil {
+		panic(err)
+	}
+	if cfg != nil {
+		c.cfg = &cfgRow{cfg.Provider, cfg.ClusterID, s.tagOf(cfg.Config), cfg.CreateIndex, cfg.ModifyIndex}
+		c.clusterID = cfg.ClusterID
+	}
+	provs, err := sn.CAProviderState()
+	if err != nil {
+		panic(err)
+	}
+	for _, p := range provs {
+		c.provs = append(c.provs, provRow{s.label("p", p.ID), p.CreateIndex, p.ModifyIndex})
+	}
+	sort.Slice(c.provs, func(i, j int) bool { return c.provs[i].id < c.provs[j].id })
+	it, err := sn.Indexes()
+	if err != nil {
+		panic(err)
+	}
+	for v := it.Next(); v != nil; v = it.Next() {
+		e := v.(*state.IndexEntry)
+		switch e.Key {
+		case "connect-ca-roots":
+			c.ridx = e.Value
+		case "connect-ca-builtin":
+			c.pidx = e.Value
+		case "connect-ca-builtin-serial":
+			c.ser = int64(e.Value)
+		}
+	}
+	return c
+}
+
+func (c caSnap) String() string {
+	rs := make([]string, len(c.roots))
+	for i, r := range c.roots {
+		rs[i] = fmt.Sprintf("%s;%s;%d;%d", hx.EncS(r.id), hx.EncBool(r.active), r.create, r.mod)
+	}
+	cfg := "none"
+	if c.cfg != nil {
+		cfg = fmt.Sprintf("%s;%s;%s;%d;%d", hx.EncS(c.cfg.provider), hx.EncS(c.cfg.cluster), hx.EncS(c.cfg.tag), c.cfg.create, c.cfg.mod)
+	}
+	ps := make([]string, len(c.provs))
+	for i, p := range c.provs {
+		ps[i] = fmt.Sprintf("%s;%d;%d", hx.EncS(p.id), p.create, p.mod)
+	}
+	ser := "none"
+	if c.ser >= 0 {
+		ser = fmt.Sprint(c.ser)
+	}
+	return fmt.Sprintf("roots=%s ridx=%d cfg=%s pidx=%d provs=%s ser=%s", hx.EncList(rs), c.ridx, cfg, c.pidx, hx.EncList(ps), ser)
+}
+
+func (c caSnap) rootsString() string {
+	return c.String()[:strings.Index(c.String(), " cfg=")]
+}
+func (c caSnap) cfgString() string {
+	if c.cfg == nil {
+		return "none"
+	}
+	return fmt.Sprintf("%+v", *c.cfg)
+}
+
+func opName(op structs.CAOp) string {
+	switch op {
+	case structs.CAOpSetConfig:
+		return "setconfig"
+	case structs.CAOpSetRoots:
+		return "setroots"
+	case structs.CAOpSetProviderState:
+		return "setprov"
+	case structs.CAOpDeleteProviderState:
+		return "delprov"
+	case structs.CAOpSetRootsAndConfig:
+		return "setboth"
+	case structs.CAOpIncrementProviderSerialNumber:
+		return "incserial"
+	}
+	return "badop"
+}
+
+func (s *sess) encRoots(rs []*structs.CARoot) string {
+	t := make([]string, len(rs))
+	for i, r := range rs {
+		t[i] = hx.EncS(s.label("r", r.ID)) + ";" + hx.EncBool(r.Active)
+	}
+	return hx.EncList(t)
+}
+
+func (s *sess) fmtCA(idx uint64, req *structs.CARequest) string {
+	p := fmt.Sprintf("ca %d ", idx)
+	switch opName(req.Op) {
+	case "setconfig":
+		c := req.Config
+		return p + fmt.Sprintf("setconfig %d %s %s %s", c.ModifyIndex, hx.EncS(c.Provider), hx.EncS(c.ClusterID), hx.EncS(s.tagOf(c.Config)))
+	case "setroots":
+		return p + fmt.Sprintf("setroots %d %s", req.Index, s.encRoots(req.Roots))
+	case "setprov":
+		return p + "setprov " + hx.EncS(s.label("p", req.ProviderState.ID))
+	case "delprov":
+		return p + "delprov " + hx.EncS(s.label("p", req.ProviderState.ID))
+	case "setboth":
+		c := req.Config
+		return p + fmt.Sprintf("setboth %d %s %d %s %s %s", req.Index, s.encRoots(req.Roots), c.ModifyIndex, hx.EncS(c.Provider), hx.EncS(c.ClusterID), hx.EncS(s.tagOf(c.Config)))
+	case "incserial":
+		return p + "incserial"
+	}
+	return p + "badop"
+}
+
+func fmtRes(resp interface{}) string {
+	switch v := resp.(type) {
+	case nil:
+		return "nil"
+	case bool:
+		if v {
+			return "true"
+		}
+		return "false"
+	case uint64:
+		return fmt.Sprintf("n=%d", v)
+	case error:
+		m := v.Error()
+		switch {
+		case strings.Contains(m, "exactly one active CA"):
+			return "err:active-count"
+		case v == state.ErrMissingCARootID || strings.Contains(m, "Missing CA root ID"):
+			return "err:missing-id"
+		case strings.Contains(m, "ModifyIndex did not match existing"):
+			return "err:cas-mismatch"
+		case strings.Contains(m, "Invalid CA operation"):
+			return "err:invalid-op"
+		}
+		return "err:other:" + hx.EncS(m)
+	}
+	return fmt.Sprintf("unknown:%T", resp)
+}
+
+func (s *sess) noteSerial(n uint64, what string) {
+	if s.serials[n] || n <= s.maxSer {
+		s.violate("ca:serial-reused-or-not-increasing", fmt.Sprintf("%s got serial %d, largest handed out before is %d (seen before: %v)", what, n, s.maxSer, s.serials[n]))
+	}
+	s.serials[n] = true
+	if n > s.maxSer {
+		s.maxSer = n
+	}
+}
+
+func (s *sess) onCA(idx uint64, req *structs.CARequest, resp interface{}) {
+	name := opName(req.Op)
+	if s.inSign {
+		s.signOps = append(s.signOps, name)
+		return
+	}
+	s.run.Tag("ca:" + name)
+	cur := s.snap()
+	res := fmtRes(resp)
+	s.run.Tag("ca-res:" + name + ":" + strings.SplitN(res, "=", 2)[0])
+	s.line(s.fmtCA(idx, req), res+" | "+cur.String())
+	s.monitorCA(s.prev, cur, idx, req, resp, name)
+	s.prev = cur
+}
+
+func (s *sess) monitorCA(prev, cur caSnap, idx uint64, req *structs.CARequest, resp interface{}, name string) {
+	// at all times: no roots at all (CA not bootstrapped) or exactly one active root
+	nact := 0
+	for _, r := range cur.roots {
+		if r.active {
+			nact++
+		}
+	}
+	pact := 0
+	for _, r := range prev.roots {
+		if r.active {
+			pact++
+		}
+	}
+	prevOK := len(prev.roots) == 0 || pact == 1
+	if len(cur.roots) > 0 && nact != 1 && (prevOK || cur.rootsString() != prev.rootsString()) {
+		dup := false
+		seen := map[string]bool{}
+		for _, r := range req.Roots {
+			if seen[r.ID] {
+				dup = true
+			}
+			seen[r.ID] = true
+		}
+		sig := fmt.Sprintf("ca:%s-leaves-%d-active-roots", name, nact)
+		if dup {
+			sig = fmt.Sprintf("ca:%s-duplicate-root-id-leaves-%d-active-roots", name, nact)
+		}
+		s.violate(sig, fmt.Sprintf("after %s at index %d the root table is %s", name, idx, cur.rootsString()))
+	}
+	applied, isBool := resp.(bool)
+	_, isErr := resp.(error)
+	switch name {
+	case "setroots", "setboth":
+		if !(isBool && applied) {
+			if cur.String() != prev.String() {
+				s.violate("ca:"+name+"-not-applied-but-state-changed", fmt.Sprintf("response %v but tables went from [%s] to [%s]", resp, prev, cur))
+			}
+			break
+		}
+		if prev.ridx != req.Index {
+			s.violate("ca:"+name+"-applied-with-stale-index", fmt.Sprintf("roots index was %d, request carried %d, response true", prev.ridx, req.Index))
+		}
+		want := map[string]bool{}
+		for _, r := range req.Roots {
+			want[s.label("r", r.ID)] = true
+		}
+		ok := cur.ridx == idx && len(cur.roots) == len(want)
+		for _, r := range cur.roots {
+			if !want[r.id] || r.mod != idx {
+				ok = false
+			}
+		}
+		if !ok {
+			s.violate("ca:"+name+"-applied-but-roots-are-not-the-requested-set", fmt.Sprintf("requested %s, table is %s", s.encRoots(req.Roots), cur.rootsString()))
+		}
+		if name == "setboth" {
+			pm := uint64(0)
+			if prev.cfg != nil {
+				pm = prev.cfg.mod
+			}
+			if cur.cfg == nil || cur.cfg.mod != idx || pm != req.Config.ModifyIndex {
+				s.violate("ca:setboth-roots-replaced-without-config", fmt.Sprintf("roots replaced at %d but config is %s (was %s, request cas %d)", idx, cur.cfgString(), prev.cfgString(), req.Config.ModifyIndex))
+			}
+		} else if cur.cfgString() != prev.cfgString() {
+			s.violate("ca:setroots-changed-config", "config changed by set-roots")
+		}
+	case "setconfig":
+		if cur.rootsString() != prev.rootsString() {
+			s.violate("ca:setconfig-changed-roots", "roots changed by set-config")
+		}
+		if isErr {
+			if cur.String() != prev.String() {
+				s.violate("ca:setconfig-failed-but-state-changed", fmt.Sprintf("[%s] -> [%s]", prev, cur))
+			}
+		} else {
+			pm := uint64(0)
+			if prev.cfg != nil {
+				pm = prev.cfg.mod
+			}
+			if cur.cfg == nil || cur.cfg.mod != idx || (req.Config.ModifyIndex != 0 && pm != req.Config.ModifyIndex) {
+				s.violate("ca:setconfig-applied-with-stale-index", fmt.Sprintf("config was %s, request cas %d, now %s", prev.cfgString(), req.Config.ModifyIndex, cur.cfgString()))
+			}
+		}
+	case "incserial":
+		if n, ok := resp.(uint64); ok {
+			s.noteSerial(n, "increment-provider-serial")
+		}
+		if cur.rootsString() != prev.rootsString() || cur.cfgString() != prev.cfgString() {
+			s.violate("ca:incserial-changed-roots-or-config", "")
+		}
+	default:
+		if cur.rootsString() != prev.rootsString() || cur.cfgString() != prev.cfgString() {
+			s.violate("ca:"+name+"-changed-roots-or-config", "")
+		}
+	}
+}
+
+func (s *sess) trustDomain() string {
+	_, cfg, err := s.d.State().CAConfig(nil)
+	if err != nil || cfg == nil {
+		return ""
+	}
+	return strings.ToLower(cfg.ClusterID + ".consul")
+}
+
+func (s *sess) mgrLine() {
+	id := consul.VerifProviderRoot12(s.m)
+	var l []string
+	if id != "" {
+		l = append(l, hx.EncS(s.label("r", id)))
+	}
+	pv := "none"
+	if p := consul.VerifProviderID12(s.m); p != "" {
+		pv = hx.EncS(s.label("p", p))
+	}
+	s.line("mgr "+pv, "active="+hx.EncList(l))
+}
+
+// ---------------------------------------------------------------- generators: URIs
+
+type wpick struct {
+	w int
+	v string
+}
+
+func pickW(r *hx.RNG, ps []wpick) string {
+	t := 0
+	for _, p := range ps {
+		t += p.w
+	}
+	n := r.Intn(t)
+	for _, p := range ps {
+		if n < p.w {
+			return p.v
+		}
+		n -= p.w
+	}
+	return ps[0].v
+}
+
+var nameSegs = []string{"web", "web", "web", "api", "Web", "%77eb", "we%62", "web%2Fapi", "a%2Fb", "*", "%2A", "web%", "%zz", "%",
+	"a+b", "a%20b", "%C3%A9", "%00", "%ff", "web;x", "a:b", "a@b", "~x", "web.v1", "a%25b", "node1", "node1", "Node1", "node%31", "n%2Fid%2Fx"}
+var dcSegs = []wpick{{62, "dc1"}, {8, "dc2"}, {5, "DC1"}, {5, "dc%31"}, {4, "d%631"}, {4, "dc1x"}, {4, "dc%2F1"}, {3, "%zz"}, {3, "dc1%2Fid%2Fnode1"}, {2, "*"}}
+var nsSegs = []wpick{{80, "default"}, {5, "Default"}, {5, "other"}, {6, "def%61ult"}, {4, "%64efault"}}
+var apPfx = []wpick{{72, ""}, {10, "/ap/default"}, {7, "/ap/foo"}, {3, "/ap/DEFAULT"}, {4, "/ap/def%61ult"}, {2, "/ap/%zz"}, {2, "/ap/"}}
+var sufs = []wpick{{86, ""}, {4, "?x=1"}, {3, "#frag"}, {3, "/"}, {2, "/extra"}, {2, "?"}}
+var schemes = []wpick{{91, "spiffe"}, {2, "SPIFFE"}, {3, "https"}, {2, "spiffes"}, {2, ""}}
+var junkPaths = []string{"/", "", "/foo", "/ns/default/dc/dc1/svc", "/ns/default/dc/dc1/svc/", "//ns/default/dc/dc1/svc/web",
+	"/ns//dc/dc1/svc/web", "/ns/default/dc/dc1/svc/web/id/x", "/agent/client/dc/dc1", "/agent/server/dc/dc1/id/x",
+	"/agent/other/dc/dc1/id/x", "/gateway/mesh/dc", "/gateway/terminating/dc/dc1", "/ns/default/dc/dc1/agent/client/dc/dc1/id/n",
+	"/NS/default/DC/dc1/SVC/web", "/ns/default/dc/dc1/svc/web%2Fid%2Fx", "/ap/default", "/ns/default/dc/dc1/svc/web/agent/server/dc/dc1",
+	"/agent/server/dc/", "/ap/foo/agent/server/dc/dc1"}
+
+func mixCase(r *hx.RNG, s string) string {
+	b := []byte(s)
+	for i := range b {
+		if b[i] >= 'a' && b[i] <= 'z' && r.Chance(40) {
+			b[i] -= 32
+		}
+	}
+	return string(b)
+}
+
+func genHost(r *hx.RNG, td string) (string, string) {
+	switch n := r.Intn(100); {
+	case n < 52:
+		return td, "host:trust-domain"
+	case n < 58:
+		return strings.ToUpper(td), "host:trust-domain-upper"
+	case n < 63:
+		return mixCase(r, td), "host:trust-domain-mixed-case"
+	case n < 77:
+		return "foreign.consul", "host:foreign"
+	case n < 80:
+		return "evil-" + td, "host:suffix-of-host-is-trust-domain"
+	case n < 83:
+		return td + ".evil.com", "host:trust-domain-is-prefix"
+	case n < 86:
+		return td[:len(td)-1], "host:truncated"
+	case n < 89:
+		return td + ":8443", "host:with-port"
+	case n < 92:
+		return "user@" + td, "host:with-userinfo"
+	case n < 95:
+		return "", "host:empty"
+	case n < 97:
+		return "consul", "host:tld-only"
+	default:
+		return "11111111-2222-3333-4444-555555555555.consul", "host:test-cluster-id"
+	}
+}
+
+// genURI returns one raw URI string and its tags.
+func genURI(r *hx.RNG, td string) (string, []string) {
+	host, htag := genHost(r, td)
+	tags := []string{htag}
+	scheme := pickW(r, schemes)
+	if scheme != "spiffe" {
+		tags = append(tags, "scheme:"+scheme)
+	}
+	var path, kind string
+	ap := pickW(r, apPfx)
+	switch n := r.Intn(100); {
+	case n < 40:
+		kind = "service"
+		path = ap + "/ns/" + pickW(r, nsSegs) + "/dc/" + pickW(r, dcSegs) + "/svc/" + hx.Pick(r, nameSegs)
+	case n < 66:
+		kind = "agent"
+		path = ap + "/agent/client/dc/" + pickW(r, dcSegs) + "/id/" + hx.Pick(r, nameSegs)
+	case n < 76:
+		kind = "gateway"
+		path = ap + "/gateway/mesh/dc/" + pickW(r, dcSegs)
+	case n < 84:
+		kind = "server"
+		path = "/agent/server/dc/" + pickW(r, dcSegs)
+	case n < 88:
+		kind = "signing"
+		path = ""
+		ap = ""
+	default:
+		kind = "junk"
+		path = hx.Pick(r, junkPaths)
+		ap = ""
+	}
+	tags = append(tags, "uri-kind:"+kind)
+	if ap != "" {
+		tags = append(tags, "uri:ap-prefix")
+	}
+	if strings.Contains(path, "%") {
+		tags = append(tags, "uri:percent-escape")
+	}
+	if strings.Contains(strings.ToUpper(path), "%2F") {
+		tags = append(tags, "uri:escaped-slash")
+	}
+	suf := pickW(r, sufs)
+	if suf != "" {
+		tags = append(tags, "uri:suffix:"+suf[:1])
+	}
+	s := "//" + host + path + suf
+	if scheme != "" {
+		s = scheme + ":" + s
+	}
+	if r.Chance(1) {
+		s = "spiffe:opaque-" + host
+		tags = append(tags, "uri:opaque")
+	}
+	return s, tags
+}
+
+// ---------------------------------------------------------------- generators: authorizers
+
+var ruleNames = []string{"web", "api", "Web", "web/api", "a/b", "*", "we", "w", "", "node1", "Node1", "n", "a b", "a+b", "a:b", "a@b", "web.v1", "a%b", "~x", "web;x", "default", "dc1"}
+
+type authzGen struct {
+	az   acl.Authorizer
+	desc string
+}
+
+func genAuthz(r *hx.RNG, hints []string) authzGen {
+	switch n := r.Intn(100); {
+	case n < 10:
+		return authzGen{acl.ManageAll(), "manage-all"}
+	case n < 14:
+		return authzGen{acl.AllowAll(), "allow-all"}
+	case n < 19:
+		return authzGen{acl.DenyAll(), "deny-all"}
+	}
+	parent, pd := acl.DenyAll(), "default-deny"
+	if r.Chance(12) {
+		parent, pd = acl.AllowAll(), "default-allow"
+	}
+	level := func() string {
+		switch n := r.Intn(10); {
+		case n < 6:
+			return "write"
+		case n < 8:
+			return "read"
+		}
+		return "deny"
+	}
+	name := func() string {
+		if len(hints) > 0 && r.Chance(65) {
+			h := hx.Pick(r, hints)
+			ok := true
+			for _, c := range []byte(h) {
+				if c < 0x20 || c > 0x7e || c == '"' || c == '\\' || c == '$' {
+					ok = false
+				}
+			}
+			if ok {
+				return h
+			}
+		}
+		return hx.Pick(r, ruleNames)
+	}
+	seen := map[string]bool{}
+	var sb strings.Builder
+	nr := 1 + r.Intn(4)
+	for i := 0; i < nr; i++ {
+		kind := hx.Pick(r, []string{"service", "service", "service_prefix", "node", "node", "node_prefix"})
+		nm := name()
+		if strings.HasSuffix(kind, "_prefix") && nm != "" && r.Chance(50) {
+			nm = nm[:1+r.Intn(len(nm))]
+		}
+		if !strings.HasSuffix(kind, "_prefix") && nm == "" {
+			nm = "web"
+		}
+		if seen[kind+"/"+nm] {
+			continue
+		}
+		seen[kind+"/"+nm] = true
+		fmt.Fprintf(&sb, "%s %q { policy = %q }\n", kind, nm, level())
+	}
+	if r.Chance(35) {
+		fmt.Fprintf(&sb, "mesh = %q\n", hx.Pick(r, []string{"write", "write", "read"}))
+	}
+	if r.Chance(20) {
+		fmt.Fprintf(&sb, "acl = %q\n", hx.Pick(r, []string{"write", "write", "read"}))
+	}
+	pol, err := acl.NewPolicyFromSource(sb.String(), nil, nil)
+	if err != nil {
+		panic(fmt.Sprintf("policy %q: %v", sb.String(), err))
+	}
+	az, err := acl.NewPolicyAuthorizerWithDefaults(parent, []*acl.Policy{pol}, nil)
+	if err != nil {
+		panic(err)
+	}
+	return authzGen{az, pd + " " + strings.ReplaceAll(sb.String(), "\n", "; ")}
+}
+
+// ---------------------------------------------------------------- sign
+
+func classify(err error) string {
+	m := err.Error()
+	switch {
+	case acl.IsErrPermissionDenied(err):
+		return "acl"
+	case strings.HasPrefix(m, "CSR SAN contains an invalid number of URIs"):
+		return "uri-count"
+	case strings.HasPrefix(m, "CSR SAN does not allow specifying email"):
+		return "email"
+	case strings.HasPrefix(m, "SPIFFE ID must have 'spiffe' scheme"):
+		return "scheme"
+	case strings.HasPrefix(m, "Invalid admin partition:"), strings.HasPrefix(m, "Invalid namespace:"),
+		strings.HasPrefix(m, "Invalid datacenter:"), strings.HasPrefix(m, "Invalid service:"), strings.HasPrefix(m, "Invalid node:"):
+		return "escape"
+	case strings.HasPrefix(m, "SPIFFE ID is not in the expected format"):
+		return "format"
+	case strings.HasPrefix(m, "Non default partition"):
+		return "ent-only"
+	case strings.HasPrefix(m, "SPIFFE ID in CSR must be a service"):
+		return "kind"
+	case strings.HasPrefix(m, "SPIFFE ID in CSR from a different datacenter"):
+		return "dc"
+	case strings.HasPrefix(m, "SPIFFE ID in CSR from a different trust domain"):
+		return "trust-domain"
+	case err == ca.ErrNotInitialized:
+		return "provider-uninit"
+	}
+	return "other:" + hx.EncS(m)
+}
+
+func idString(id connect.CertURI) string {
+	switch v := id.(type) {
+	case *connect.SpiffeIDService:
+		return fmt.Sprintf("service;%s;%s;%s;%s;%s", hx.EncS(v.Host), hx.EncS(v.Partition), hx.EncS(v.Namespace), hx.EncS(v.Datacenter), hx.EncS(v.Service))
+	case *connect.SpiffeIDAgent:
+		return fmt.Sprintf("agent;%s;%s;%s;%s", hx.EncS(v.Host), hx.EncS(v.Partition), hx.EncS(v.Datacenter), hx.EncS(v.Agent))
+	case *connect.SpiffeIDMeshGateway:
+		return fmt.Sprintf("gateway;%s;%s;%s", hx.EncS(v.Host), hx.EncS(v.Partition), hx.EncS(v.Datacenter))
+	case *connect.SpiffeIDServer:
+		return fmt.Sprintf("server;%s;%s", hx.EncS(v.Host), hx.EncS(v.Datacenter))
+	case *connect.SpiffeIDSigning:
+		return fmt.Sprintf("signing;%s;%s", hx.EncS(v.ClusterID), hx.EncS(v.Domain))
+	}
+	return fmt.Sprintf("unknown-%T", id)
+}
+
+// identity without the host: what must survive from the request into the certificate
+func idScope(id connect.CertURI) string {
+	switch v := id.(type) {
+	case *connect.SpiffeIDService:
+		return fmt.Sprintf("service/%s/%s/%s/%s", v.Partition, v.Namespace, v.Datacenter, v.Service)
+	case *connect.SpiffeIDAgent:
+		return fmt.Sprintf("agent/%s/%s", v.Datacenter, v.Agent)
+	case *connect.SpiffeIDMeshGateway:
+		return fmt.Sprintf("gateway/%s/%s", v.Partition, v.Datacenter)
+	case *connect.SpiffeIDServer:
+		return fmt.Sprintf("server/%s", v.Datacenter)
+	}
+	return fmt.Sprintf("other/%T", id)
+}
+
+type csrSpec struct {
+	uris   []string
+	emails []string
+	dns    []string
+	ips    []net.IP
+	caExt  bool
+	cn     string
+}
+
+func ipStrings(ips []net.IP) []string {
+	t := make([]string, len(ips))
+	for i, ip := range ips {
+		t[i] = ip.String()
+	}
+	return t
+}
+
+// doSign runs one CSR through the real signing path; returns false when the CSR could not be built.
+func (s *sess) doSign(r *hx.RNG, spec csrSpec, ag authzGen, tags []string) bool {
+	var us []*url.URL
+	for _, raw := range spec.uris {
+		u, err := url.Parse(raw)
+		if err != nil {
+			s.run.Tag("csr:uri-rejected-by-url.Parse")
+			return false
+		}
+		us = append(us, u)
+	}
+	tmpl := &x509.CertificateRequest{URIs: us, DNSNames: spec.dns, IPAddresses: spec.ips, EmailAddresses: spec.emails,
+		SignatureAlgorithm: x509.ECDSAWithSHA256}
+	if spec.cn != "" {
+		tmpl.Subject = pkix.Name{CommonName: spec.cn}
+	}
+	if spec.caExt {
+		ext, err := connect.CreateCAExtension()
+		if err != nil {
+			panic(err)
+		}
+		tmpl.ExtraExtensions = []pkix.Extension{ext}
+	}
+	der, err := x509.CreateCertificateRequest(rand.Reader, tmpl, hx.Pick(r, csrKeys))
+	if err != nil {
+		s.run.Tag("csr:rejected-by-x509.CreateCertificateRequest")
+		return false
+	}
+	csr, err := connect.ParseCSR(string(pem.EncodeToMemory(&pem.Block{Type: "CERTIFICATE REQUEST", Bytes: der})))
+	if err != nil {
+		s.run.Tag("csr:rejected-by-connect.ParseCSR")
+		return false
+	}
+	for _, t := range tags {
+		s.run.Tag(t)
+	}
+	s.run.Tag(fmt.Sprintf("csr:uris=%d", len(csr.URIs)))
+	if len(csr.EmailAddresses) > 0 {
+		s.run.Tag("csr:email-san")
+	}
+	if len(csr.DNSNames) > 0 {
+		s.run.Tag("csr:dns-san")
+	}
+	if len(csr.IPAddresses) > 0 {
+		s.run.Tag("csr:ip-san")
+	}
+	if spec.caExt {
+		s.run.Tag("csr:ca-basic-constraints-extension")
+	}
+
+	// what the request carried (SignCertificate may replace csr.URIs)
+	reqURIs := append([]*url.URL(nil), csr.URIs...)
+	reqDNS := append([]string(nil), csr.DNSNames...)
+	reqIPs := ipStrings(csr.IPAddresses)
+	nEmails := len(csr.EmailAddresses)
+
+	// authorizer table over every name the URIs could denote
+	cand := map[string]bool{}
+	var ut []string
+	for _, u := range reqURIs {
+		p := u.Path
+		if u.RawPath != "" {
+			p = u.RawPath
+		}
+		for _, seg := range strings.Split(p, "/") {
+			cand[seg] = true
+			if d, err := url.PathUnescape(seg); err == nil {
+				cand[d] = true
+			}
+		}
+		ut = append(ut, strings.Join([]string{hx.EncS(u.Scheme), hx.EncS(u.Host), hx.EncS(u.Path), hx.EncS(u.RawPath), hx.EncS(u.String())}, ";"))
+	}
+	names := make([]string, 0, len(cand))
+	for n := range cand {
+		names = append(names, n)
+	}
+	sort.Strings(names)
+	var st, nt []string
+	for _, n := range names {
+		st = append(st, hx.EncS(n)+";"+hx.EncBool(ag.az.ServiceWrite(n, nil) == acl.Allow))
+		nt = append(nt, hx.EncS(n)+";"+hx.EncBool(ag.az.NodeWrite(n, nil) == acl.Allow))
+	}
+	mesh := ag.az.MeshWrite(nil) == acl.Allow
+	aclw := ag.az.ACLWrite(nil) == acl.Allow
+	op := fmt.Sprintf("sign %s %s %s %s %s %d %s %s", hx.EncBool(mesh), hx.EncBool(aclw), hx.EncList(st), hx.EncList(nt),
+		hx.EncList(ut), nEmails, hx.EncSList(reqDNS), hx.EncSList(reqIPs))
+
+	td := s.trustDomain()
+	s.inSign, s.signOps = true, nil
+	var issued *structs.IssuedCert
+	func() {
+		defer func() {
+			if p := recover(); p != nil {
+				err = fmt.Errorf("panic: %v", p)
+			}
+		}()
+		issued, err = s.m.AuthorizeAndSignCertificate(csr, ag.az)
+	}()
+	s.inSign = false
+	caops := hx.EncList(s.signOps)
+
+	if err != nil {
+		e := classify(err)
+		s.run.Tag("sign:err:" + strings.SplitN(e, ":", 2)[0])
+		s.line(op, "err "+e+" caops="+caops)
+		s.run.Case(op, e != "format" && e != "uri-count")
+		if cur := s.snap(); cur.String() != s.prev.String() {
+			// a rejected request may not change the CA tables beyond the serial counter
+			if cur.rootsString() != s.prev.rootsString() || cur.cfgString() != s.prev.cfgString() {
+				s.violate("ca:rejected-csr-changed-ca-tables", fmt.Sprintf("[%s] -> [%s]", s.prev, cur))
+			}
+			s.prev = cur
+		}
+		return true
+	}
+	s.run.Tag("sign:ok")
+	s.run.Case(op, true)
+	leaf, perr := connect.ParseCert(issued.CertPEM)
+	if perr != nil {
+		s.line(op, "ok unparseable-cert caops="+caops)
+		s.violate("ca:issued-certificate-does-not-parse", perr.Error())
+		return true
+	}
+	var ids, curis []string
+	for _, u := range leaf.URIs {
+		curis = append(curis, hx.EncS(u.String()))
+		if id, err := connect.ParseCertURI(u); err == nil {
+			ids = append(ids, idString(id))
+		} else {
+			ids = append(ids, "unparseable")
+		}
+	}
+	// which stored root signed it
+	_, roots, _ := s.d.State().CARoots(nil)
+	// (two roots generated for the same private key both verify it: prefer the active one)
+	signer := "none"
+	for _, rt := range roots {
+		if rc, err := connect.ParseCert(rt.RootCert); err == nil && leaf.CheckSignatureFrom(rc) == nil {
+			if signer == "none" || rt.Active {
+				signer = s.label("r", rt.ID)
+			}
+		}
+	}
+	serial := leaf.SerialNumber.Uint64()
+	s.line(op, fmt.Sprintf("ok ids=%s uris=%s serial=%d root=%s dns=%s ips=%s emails=%d ca=%s caops=%s",
+		hx.EncList(ids), hx.EncList(curis), serial, hx.EncS(signer), hx.EncSList(leaf.DNSNames), hx.EncSList(ipStrings(leaf.IPAddresses)),
+		len(leaf.EmailAddresses), hx.EncBool(leaf.IsCA), caops))
+	s.prev = s.snap()
+	s.run.Sample(map[string]any{"csr_uris": spec.uris, "authorizer": ag.desc, "issued_uri": curis, "serial": serial})
+
+	// ------------------------------------------------------------ monitors
+	if len(reqURIs) != 1 {
+		s.violate(fmt.Sprintf("ca:signed-csr-with-%d-uris", len(reqURIs)), fmt.Sprintf("CSR URIs %v", spec.uris))
+	}
+	if nEmails > 0 {
+		s.violate("ca:signed-csr-with-email-san", fmt.Sprintf("CSR e-mails %v", spec.emails))
+	}
+	if !leaf.SerialNumber.IsUint64() {
+		s.violate("ca:serial-not-uint64", leaf.SerialNumber.String())
+	}
+	s.noteSerial(serial, "leaf certificate")
+	if leaf.IsCA || leaf.KeyUsage&x509.KeyUsageCertSign != 0 || !leaf.BasicConstraintsValid {
+		s.violate("ca:leaf-is-a-ca", fmt.Sprintf("IsCA=%v BasicConstraintsValid=%v KeyUsage=%b", leaf.IsCA, leaf.BasicConstraintsValid, leaf.KeyUsage))
+	}
+	if strings.Join(leaf.DNSNames, ",") != strings.Join(reqDNS, ",") || strings.Join(ipStrings(leaf.IPAddresses), ",") != strings.Join(reqIPs, ",") || len(leaf.EmailAddresses) != 0 {
+		s.violate("ca:certificate-sans-differ-from-request", fmt.Sprintf("dns %v vs %v, ips %v vs %v, emails %v", leaf.DNSNames, reqDNS, leaf.IPAddresses, reqIPs, leaf.EmailAddresses))
+	}
+	// chains to the currently active root
+	_, active, _ := s.d.State().CARootActive(nil)
+	if active == nil {
+		s.violate("ca:issued-without-active-root", "")
+	} else {
+		pool, inter := x509.NewCertPool(), x509.NewCertPool()
+		pool.AppendCertsFromPEM([]byte(active.RootCert))
+		for _, ic := range active.IntermediateCerts {
+			inter.AppendCertsFromPEM([]byte(ic))
+		}
+		inter.AppendCertsFromPEM([]byte(issued.CertPEM))
+		if _, err := leaf.Verify(x509.VerifyOptions{Roots: pool, Intermediates: inter, KeyUsages: []x509.ExtKeyUsage{x509.ExtKeyUsageAny}, CurrentTime: time.Now()}); err != nil {
+			s.violate("ca:leaf-does-not-chain-to-active-root", err.Error())
+		}
+	}
+	if len(leaf.URIs) != 1 {
+		s.violate(fmt.Sprintf("ca:certificate-carries-%d-uris", len(leaf.URIs)), strings.Join(curis, " "))
+		return true
+	}
+	cid, err := connect.ParseCertURI(leaf.URIs[0])
+	if err != nil {
+		sig := "ca:issued-uri-is-not-a-spiffe-identity"
+		if len(reqURIs) == 1 {
+			if rid, e2 := connect.ParseCertURI(reqURIs[0]); e2 == nil {
+				if _, isAgent := rid.(*connect.SpiffeIDAgent); isAgent && reqURIs[0].String() != leaf.URIs[0].String() {
+					sig = "ca:agent-rewritten-uri-is-not-a-spiffe-identity"
+				}
+			}
+		}
+		s.violate(sig, fmt.Sprintf("request %s, certificate carries %s: %v", reqURIs[0], leaf.URIs[0], err))
+		return true
+	}
+	kind, host, dc := "", "", ""
+	allowed := false
+	switch v := cid.(type) {
+	case *connect.SpiffeIDService:
+		kind, host, dc = "service", v.Host, v.Datacenter
+		allowed = ag.az.ServiceWrite(v.Service, nil) == acl.Allow
+		if v.Namespace != "default" || v.Partition != "default" {
+			s.violate("ca:service-identity-outside-default-namespace-signed", idString(cid))
+		}
+	case *connect.SpiffeIDAgent:
+		kind, host, dc = "agent", v.Host, v.Datacenter
+		allowed = ag.az.NodeWrite(v.Agent, nil) == acl.Allow
+	case *connect.SpiffeIDMeshGateway:
+		kind, host, dc = "gateway", v.Host, v.Datacenter
+		allowed = mesh
+		if v.Partition != "default" {
+			s.violate("ca:gateway-identity-outside-default-partition-signed", idString(cid))
+		}
+	case *connect.SpiffeIDServer:
+		kind, host, dc = "server", v.Host, v.Datacenter
+		allowed = aclw
+	default:
+		s.violate("ca:unsupported-identity-kind-signed", idString(cid))
+		return true
+	}
+	s.run.Tag("sign:ok:" + kind)
+	// the RPC reply must describe the certificate it carries
+	replyURI, replyName, wantName := "", "", ""
+	switch v := cid.(type) {
+	case *connect.SpiffeIDService:
+		replyURI, replyName, wantName = issued.ServiceURI, issued.Service, v.Service
+	case *connect.SpiffeIDAgent:
+		replyURI, replyName, wantName = issued.AgentURI, issued.Agent, v.Agent
+	case *connect.SpiffeIDMeshGateway:
+		replyURI = issued.KindURI
+	case *connect.SpiffeIDServer:
+		replyURI = issued.ServerURI
+	}
+	if replyURI != leaf.URIs[0].String() || replyName != wantName || issued.SerialNumber != connect.EncodeSerialNumber(leaf.SerialNumber) {
+		s.violate("ca:reply-does-not-describe-the-certificate", fmt.Sprintf("reply uri=%q name=%q serial=%s, certificate %s serial %d", replyURI, replyName, issued.SerialNumber, leaf.URIs[0], serial))
+	}
+	if !allowed {
+		s.violate("ca:"+kind+"-identity-signed-without-write-permission", fmt.Sprintf("%s issued under authorizer [%s]", idString(cid), ag.desc))
+	}
+	if dc != localDC {
+		s.violate("ca:"+kind+"-identity-foreign-datacenter-signed", fmt.Sprintf("%s issued by a server of datacenter %s", leaf.URIs[0], localDC))
+	}
+	if strings.ToLower(host) != td {
+		s.violate("ca:"+kind+"-identity-foreign-trust-domain-signed", fmt.Sprintf("%s issued by the CA of trust domain %s (request URI %s)", leaf.URIs[0], td, reqURIs[0]))
+	}
+	if len(reqURIs) == 1 {
+		if rid, err := connect.ParseCertURI(reqURIs[0]); err != nil || idScope(rid) != idScope(cid) {
+			s.violate("ca:certificate-identity-differs-from-request", fmt.Sprintf("requested %s, certificate carries %s", reqURIs[0], leaf.URIs[0]))
+		}
+	}
+	return true
+}
+
+var dnsPool = []string{"web.service.consul", "localhost", "server.dc1.consul", "*.example.com", "web.ingress.dc1.consul"}
+var ipPool = []net.IP{net.ParseIP("127.0.0.1"), net.ParseIP("10.0.0.1"), net.ParseIP("::1"), net.ParseIP("2001:db8::1")}
+
+func (s *sess) genSign(r *hx.RNG) {
+	for try := 0; try < 5; try++ {
+		td := s.trustDomain()
+		var spec csrSpec
+		var tags []string
+		n := 1
+		switch k := r.Intn(100); {
+		case k < 4:
+			n = 0
+		case k < 10:
+			n = 2
+		case k < 12:
+			n = 3
+		}
+		for i := 0; i < n; i++ {
+			u, t := genURI(r, td)
+			spec.uris = append(spec.uris, u)
+			tags = append(tags, t...)
+		}
+		if r.Chance(5) {
+			spec.emails = []string{"ops@example.com"}
+		}
+		for k := r.Intn(6) - 3; k > 0; k-- {
+			spec.dns = append(spec.dns, hx.Pick(r, dnsPool))
+		}
+		for k := r.Intn(6) - 3; k > 0; k-- {
+			spec.ips = append(spec.ips, hx.Pick(r, ipPool))
+		}
+		spec.caExt = r.Chance(6)
+		if r.Chance(20) {
+			spec.cn = "web.svc.default.11111111.consul"
+		}
+		var hints []string
+		for _, raw := range spec.uris {
+			if u, err := url.Parse(raw); err == nil {
+				p := u.Path
+				if u.RawPath != "" {
+					p = u.RawPath
+				}
+				segs := strings.Split(p, "/")
+				if last := segs[len(segs)-1]; last != "" {
+					hints = append(hints, last)
+					if d, err := url.PathUnescape(last); err == nil {
+						hints = append(hints, d, d)
+					}
+				}
+			}
+		}
+		if s.doSign(r, spec, genAuthz(r, hints), tags) {
+			return
+		}
+	}
+}
+
+// ---------------------------------------------------------------- manager sessions
+
+func copyConf(c map[string]interface{}) map[string]interface{} {
+	o := map[string]interface{}{}
+	for k, v := range c {
+		o[k] = v
+	}
+	return o
+}
+
+func (s *sess) rememberRoot() {
+	_, active, _ := s.d.State().CARootActive(nil)
+	if active != nil {
+		if _, ok := s.rootPEM[s.curKey]; !ok {
+			s.rootPEM[s.curKey] = active.RootCert
+		}
+	}
+}
+
+func (s *sess) update(conf map[string]interface{}, modIdx uint64, force bool, tag string) error {
+	err := s.m.UpdateConfiguration(&structs.CARequest{Config: &structs.CAConfiguration{Provider: "consul", Config: copyConf(conf),
+		ForceWithoutCrossSigning: force, RaftIndex: structs.RaftIndex{ModifyIndex: modIdx}}})
+	if err != nil {
+		s.run.Tag("mgr:" + tag + ":error")
+	} else {
+		s.run.Tag("mgr:" + tag + ":ok")
+	}
+	s.mgrLine()
+	return err
+}
+
+func managerSession(run *hx.Run, r *hx.RNG, nops int) {
+	s := newSess(run, false, uint64(5+r.Intn(30)))
+	cluster := clusterIDs[0]
+	if r.Chance(35) {
+		cluster = clusterIDs[1]
+	}
+	s.curKey = r.Intn(len(caKeys))
+	s.conf = map[string]interface{}{"CSRMaxPerSecond": 0, "PrivateKey": caKeys[s.curKey]}
+	s.m = consul.VerifNewCAManager12(s.d, localDC, &structs.CAConfiguration{ClusterID: cluster, Provider: "consul", Config: copyConf(s.conf)})
+	if r.Chance(10) {
+		// provider-state rows written before the CA is bootstrapped move the serial bootstrap value
+		s.d.Index += uint64(r.Intn(20))
+		s.d.ApplyCARaw(&structs.CARequest{Op: structs.CAOpSetProviderState, ProviderState: &structs.CAConsulProviderState{ID: "legacy"}})
+		run.Tag("mgr:legacy-provider-state")
+	}
+	if err := s.m.Initialize(); err != nil {
+		panic(err)
+	}
+	s.mgrLine()
+	s.rememberRoot()
+	for i := 0; i < nops; i++ {
+		switch k := r.Intn(1000); {
+		case k < 880:
+			s.genSign(r)
+		case k < 905: // rotation to another key (new root, cross-signed by the old one)
+			nk := (s.curKey + 1 + r.Intn(len(caKeys)-1)) % len(caKeys)
+			conf := copyConf(s.conf)
+			conf["PrivateKey"] = caKeys[nk]
+			delete(conf, "RootCert")
+			tag := "rotate-new-root"
+			if p, ok := s.rootPEM[nk]; ok && r.Chance(60) {
+				conf["RootCert"] = p // rotate back to a root that is still in the table (same root id)
+				tag = "rotate-back-to-earlier-root"
+			}
+			if err := s.update(conf, 0, r.Chance(25), tag); err == nil {
+				s.conf, s.curKey = conf, nk
+				s.rememberRoot()
+			}
+		case k < 920: // config-only change, unconditional or conditional on a (possibly stale) index
+			conf := copyConf(s.conf)
+			conf["LeafCertTTL"] = hx.Pick(r, []string{"72h", "80h", "96h"})
+			var mi uint64
+			tag := "config-update"
+			if r.Chance(50) {
+				_, cur, _ := s.d.State().CAConfig(nil)
+				mi = cur.ModifyIndex
+				tag = "config-cas-current"
+				if r.Chance(50) {
+					mi = cur.ModifyIndex - 1 - uint64(r.Intn(2))
+					tag = "config-cas-stale"
+				}
+			}
+			if err := s.update(conf, mi, false, tag); err == nil {
+				s.conf = conf
+			}
+		case k < 930: // no-op update
+			s.update(s.conf, 0, false, "config-noop")
+		case k < 950: // a stale conditional root replacement straight into Raft (must be refused)
+			idx, roots, _ := s.d.State().CARoots(nil)
+			var rs []*structs.CARoot
+			for _, rt := range roots {
+				c := *rt
+				c.Active = false
+				rs = append(rs, &c)
+			}
+			rs = append(rs, &structs.CARoot{ID: "intruder", Active: true})
+			stale := idx - 1 - uint64(r.Intn(3))
+			if r.Chance(30) {
+				stale = idx + 1
+			}
+			if r.Bool() {
+				s.d.ApplyCARaw(&structs.CARequest{Op: structs.CAOpSetRoots, Index: stale, Roots: rs})
+			} else {
+				_, cur, _ := s.d.State().CAConfig(nil)
+				c := *cur
+				s.d.ApplyCARaw(&structs.CARequest{Op: structs.CAOpSetRootsAndConfig, Index: stale, Roots: rs, Config: &c})
+			}
+			run.Tag("mgr:stale-root-cas")
+		case k < 960: // matching root index but stale config index: the composite must change nothing
+			idx, roots, _ := s.d.State().CARoots(nil)
+			var rs []*structs.CARoot
+			for _, rt := range roots {
+				c := *rt
+				rs = append(rs, &c)
+			}
+			_, cur, _ := s.d.State().CAConfig(nil)
+			c := *cur
+			c.ModifyIndex = cur.ModifyIndex - 1
+			s.d.ApplyCARaw(&structs.CARequest{Op: structs.CAOpSetRootsAndConfig, Index: idx, Roots: rs, Config: &c})
+			run.Tag("mgr:composite-with-stale-config-index")
+		case k < 975: // somebody else consumes a serial number
+			s.d.Index += uint64(r.Intn(5))
+			s.d.ApplyCARaw(&structs.CARequest{Op: structs.CAOpIncrementProviderSerialNumber})
+		case k < 985: // the cluster id (trust domain) is replaced in the config table
+			_, cur, _ := s.d.State().CAConfig(nil)
+			c := *cur
+			c.ModifyIndex = 0
+			c.ClusterID = hx.Pick(r, clusterIDs)
+			if r.Chance(30) {
+				c.ClusterID = ""
+			}
+			s.d.ApplyCARaw(&structs.CARequest{Op: structs.CAOpSetConfig, Config: &c})
+			run.Tag("mgr:cluster-id-set")
+		default:
+			s.d.Index += uint64(r.Intn(50))
+			run.Tag("mgr:raft-index-gap")
+		}
+	}
+}
+
+// exhaustive segment alphabets per position, every kind, with the trust domain and a foreign host
+func exhaustiveSession(run *hx.Run, r *hx.RNG, wide bool) {
+	s := newSess(run, false, 7)
+	s.curKey = 0
+	s.conf = map[string]interface{}{"CSRMaxPerSecond": 0, "PrivateKey": caKeys[0]}
+	s.m = consul.VerifNewCAManager12(s.d, localDC, &structs.CAConfiguration{ClusterID: clusterIDs[0], Provider: "consul", Config: copyConf(s.conf)})
+	if err := s.m.Initialize(); err != nil {
+		panic(err)
+	}
+	s.mgrLine()
+	alpha := []string{"a", "A", "a%2Fb", "%61", "*", "", "dc1", "dc%31"}
+	td := s.trustDomain()
+	hosts := []string{td, "foreign.consul"}
+	aps := []string{""}
+	if wide {
+		hosts = append(hosts, strings.ToUpper(td))
+		aps = append(aps, "/ap/default", "/ap/foo")
+	}
+	pol, err := acl.NewPolicyFromSource(`service "a" { policy = "write" } node "a" { policy = "write" } service "a/b" { policy = "write" } node_prefix "A" { policy = "write" }`, nil, nil)
+	if err != nil {
+		panic(err)
+	}
+	narrow, err := acl.NewPolicyAuthorizerWithDefaults(acl.DenyAll(), []*acl.Policy{pol}, nil)
+	if err != nil {
+		panic(err)
+	}
+	azs := []authzGen{{acl.ManageAll(), "manage-all"}, {narrow, "service a, a/b; node a, A*"}}
+	for _, h := range hosts {
+		for _, ap := range aps {
+			for _, az := range azs {
+				for _, x := range alpha {
+					for _, y := range alpha {
+						s.doSign(r, csrSpec{uris: []string{"spiffe://" + h + ap + "/ns/default/dc/" + x + "/svc/" + y}}, az, []string{"exhaustive:service"})
+						s.doSign(r, csrSpec{uris: []string{"spiffe://" + h + ap + "/agent/client/dc/" + x + "/id/" + y}}, az, []string{"exhaustive:agent"})
+					}
+					s.doSign(r, csrSpec{uris: []string{"spiffe://" + h + ap + "/gateway/mesh/dc/" + x}}, az, []string{"exhaustive:gateway"})
+					s.doSign(r, csrSpec{uris: []string{"spiffe://" + h + "/agent/server/dc/" + x}}, az, []string{"exhaustive:server"})
+				}
+			}
+		}
+	}
+	run.Extra["exhaustive_alphabet"] = alpha
+}
+
+// ---------------------------------------------------------------- bare CA histories
+
+func bareSession(run *hx.Run, r *hx.RNG, nops int) {
+	s := newSess(run, true, uint64(r.Intn(10)))
+	ids := []string{"a", "b", "c", "d"}
+	var staleR, staleC []uint64
+	pickIdx := func(cur uint64, stale []uint64) uint64 {
+		switch k := r.Intn(100); {
+		case k < 62:
+			return cur
+		case k < 72:
+			return 0
+		case k < 80:
+			if cur > 0 {
+				return cur - 1
+			}
+			return cur + 1
+		case k < 88:
+			return cur + 1
+		default:
+			if len(stale) > 0 {
+				return hx.Pick(r, stale)
+			}
+			return cur
+		}
+	}
+	genRoots := func() []*structs.CARoot {
+		n := r.Intn(5)
+		if r.Chance(70) {
+			n = 1 + r.Intn(3)
+		}
+		var rs []*structs.CARoot
+		act := -1
+		if n > 0 {
+			act = r.Intn(n)
+		}
+		for i := 0; i < n; i++ {
+			id := hx.Pick(r, ids)
+			if r.Chance(3) {
+				id = ""
+			}
+			a := i == act
+			if r.Chance(8) {
+				a = !a
+			}
+			rs = append(rs, &structs.CARoot{ID: id, Active: a, Name: "verif"})
+		}
+		return rs
+	}
+	genCfg := func(cur *structs.CAConfiguration) *structs.CAConfiguration {
+		var cm uint64
+		if cur != nil {
+			cm = cur.ModifyIndex
+		}
+		c := &structs.CAConfiguration{Provider: hx.Pick(r, []string{"consul", "vault"}), ClusterID: hx.Pick(r, []string{"", "c1", "c2", "C1"}),
+			Config: map[string]interface{}{"tag": hx.Pick(r, []string{"t1", "t2", "t3"})}}
+		c.ModifyIndex = pickIdx(cm, staleC)
+		return c
+	}
+	for i := 0; i < nops; i++ {
+		s.d.Index += uint64(r.Intn(3))
+		ridx, _, _ := s.d.State().CARoots(nil)
+		_, ccur, _ := s.d.State().CAConfig(nil)
+		switch k := r.Intn(100); {
+		case k < 30:
+			s.d.ApplyCARaw(&structs.CARequest{Op: structs.CAOpSetRoots, Index: pickIdx(ridx, staleR), Roots: genRoots()})
+		case k < 52:
+			s.d.ApplyCARaw(&structs.CARequest{Op: structs.CAOpSetRootsAndConfig, Index: pickIdx(ridx, staleR), Roots: genRoots(), Config: genCfg(ccur)})
+		case k < 68:
+			s.d.ApplyCARaw(&structs.CARequest{Op: structs.CAOpSetConfig, Config: genCfg(ccur)})
+		case k < 78:
+			s.d.ApplyCARaw(&structs.CARequest{Op: structs.CAOpSetProviderState, ProviderState: &structs.CAConsulProviderState{ID: hx.Pick(r, []string{"p", "q"})}})
+		case k < 84:
+			s.d.ApplyCARaw(&structs.CARequest{Op: structs.CAOpDeleteProviderState, ProviderState: &structs.CAConsulProviderState{ID: hx.Pick(r, []string{"p", "q"})}})
+		case k < 98:
+			s.d.ApplyCARaw(&structs.CARequest{Op: structs.CAOpIncrementProviderSerialNumber})
+		default:
+			s.d.ApplyCARaw(&structs.CARequest{Op: structs.CAOp("frobnicate")})
+		}
+		if ridx > 0 {
+			staleR = append(staleR, ridx)
+		}
+		if ccur != nil {
+			staleC = append(staleC, ccur.ModifyIndex)
+		}
+	}
+	run.Case(strings.Join(s.ops, "\n"), true)
+}
+
+func main() {
+	run := hx.Start()
+	run.Rule = "Connect CA: a leaf is issued only for exactly one supported SPIFFE identity of this trust domain and datacenter that the token may write; the certificate carries that identity, is not a CA, has a fresh serial and chains to the single active root; root sets are replaced atomically"
+	initKeys()
+	run.Line("regexps", hx.EncSList(connect.VerifSpiffeRegexps12()))
+	nMgr, nOps := run.Scale(45, 260), run.Scale(34, 42)
+	for i := 0; i < nMgr; i++ {
+		managerSession(run, run.RNG.Fork(uint64(i)), nOps)
+	}
+	exhaustiveSession(run, run.RNG.Fork(900001), run.Thorough())
+	nBare := run.Scale(200, 1500)
+	for i := 0; i < nBare; i++ {
+		bareSession(run, run.RNG.Fork(uint64(500000+i)), 8+run.RNG.Intn(30))
+	}
+	run.Finish()
 }
